@@ -1,0 +1,69 @@
+//! Verification hook for property C31 (compiled only with `--cfg libp2p_verif`).
+//!
+//! A `pub` wrapper around the private [`GossipsubCodec`]: it only constructs the codec and calls
+//! its `Decoder::decode`, mapping a decoded RPC to a summary of counts.
+
+use std::collections::HashMap;
+
+use asynchronous_codec::Decoder;
+use bytes::BytesMut;
+
+use crate::{
+    ValidationMode,
+    handler::HandlerEvent,
+    protocol::GossipsubCodec,
+    topic::TopicHash,
+};
+
+/// What one decoded RPC contained.
+#[derive(Debug, Clone, PartialEq, Eq)]
+pub struct Summary {
+    pub subscriptions: usize,
+    pub messages: usize,
+    pub invalid_messages: usize,
+    pub control_msgs: usize,
+}
+
+/// `GossipsubCodec` as a `Decoder` of [`Summary`]s.
+pub struct Codec(GossipsubCodec);
+
+impl Codec {
+    /// `GossipsubCodec::new`
+    pub fn new(
+        global_max_transmit_size: usize,
+        validation_mode: ValidationMode,
+        max_transmit_sizes: HashMap<TopicHash, usize>,
+        max_publish_messages: usize,
+        max_control_message_size: usize,
+    ) -> Self {
+        Codec(GossipsubCodec::new(
+            global_max_transmit_size,
+            validation_mode,
+            max_transmit_sizes,
+            max_publish_messages,
+            max_control_message_size,
+        ))
+    }
+}
+
+impl Decoder for Codec {
+    type Item = Summary;
+    type Error = std::io::Error;
+
+    fn decode(&mut self, src: &mut BytesMut) -> Result<Option<Self::Item>, Self::Error> {
+        match self.0.decode(src) {
+            Ok(Some(HandlerEvent::Message {
+                rpc,
+                invalid_messages,
+            })) => Ok(Some(Summary {
+                subscriptions: rpc.subscriptions.len(),
+                messages: rpc.messages.len(),
+                invalid_messages: invalid_messages.len(),
+                control_msgs: rpc.control_msgs.len(),
+            })),
+            Ok(Some(_)) => unreachable!("the codec only produces HandlerEvent::Message"),
+            Ok(None) => Ok(None),
+            Err(e) => Err(e.into()),
+        }
+    }
+}
